@@ -26,7 +26,8 @@ from . import common as C
 sys.path.insert(0, os.path.join(C.ROOT, "gen"))
 
 PID = "C17"
-WORK = os.path.join(C.BUILD, PID, "work")
+TAG = "p%d" % os.getpid()  # scratch names are per process: concurrent runs do not collide
+WORK = os.path.join(C.BUILD, PID, "work", TAG)
 
 REQ = (
     "From Coq Require Import List String Bool ZArith.\n"
@@ -220,7 +221,7 @@ class Runner:
             self.reinterp[("DF32", enc.lst(v32.tolist()))] = enc.lst(v64.tolist())
             arrays = [v64]
         for a in arrays:
-            if a.dtype.kind == "f" and a.ndim == 1:
+            if a.dtype.kind in "fiub" and a.ndim == 1:
                 b = a.astype(np.float64)
                 self.reinterp[("DF64", enc.lst(b.tolist()))] = enc.lst(np.frombuffer(b.tobytes(), dtype=np.float32).tolist())
 
@@ -696,7 +697,7 @@ def correspondence(ctx, np, post, config, model_ok):
     for b in range(0, len(cases), shard):
         body = "Definition cases : list case := [\n%s\n].\n" % ";\n".join(c[1] for c in cases[b:b + shard])
         body += "Eval vm_compute in (check_cases 0 cases).\nEval vm_compute in (applies 0 cases).\n"
-        files.append(("corr_%d" % (b // shard), body))
+        files.append(("%s_corr_%d" % (TAG, b // shard), body))
     res = C.coq_eval_many(ctx, files, REQ)
     bad = []
     for (name, _), (ans, log), b in zip(files, res, range(0, len(cases), shard)):
@@ -715,14 +716,22 @@ def correspondence(ctx, np, post, config, model_ok):
     info_bad = [b for b in bad if cases[b[0]][3]]
     bad = [b for b in bad if not cases[b[0]][3]]
     ctx.cov["corner_stream_disagreements"] = len(info_bad)
+    dump = []
     for ci, idxs, what in info_bad[:5]:
-        ctx.log("informational: corner-stream sequence %d disagrees with the model at operation %d (%r): %s" % (
-            ci, idxs[0], cases[ci][0][idxs[0]], what))
+        ops, term, infos, _ = cases[ci]
+        k = idxs[0]
+        ans, _ = C.coq_eval(ctx, TAG + "_corr_info", "Eval vm_compute in (nth %d (run_case %s) BAny).\n" % (k, term), REQ)
+        ctx.log("informational: corner-stream sequence %d disagrees with the model at operation %d (%r): %s; implementation %s, model %s" % (
+            ci, k, ops[k], what, json.dumps(infos[k], default=str)[:200], (ans[0] if ans else "?")[:200]))
+        dump.append(dict(ops=ops[: k + 1], implementation=infos[k], model=(ans[0] if ans else None)))
+    if dump:
+        with open(os.path.join(C.BUILD, PID, "corner_disagreements.json"), "w") as fo:
+            json.dump(dump, fo, indent=1, default=str)
     for ci, idxs, what in bad[:8]:
         ops, term, infos, _ = cases[ci]
         k = idxs[0]
         # what does the model say there?
-        ans, _ = C.coq_eval(ctx, "corr_one", "Eval vm_compute in (nth %d (run_case %s) BAny).\n" % (k, term), REQ)
+        ans, _ = C.coq_eval(ctx, TAG + "_corr_one", "Eval vm_compute in (nth %d (run_case %s) BAny).\n" % (k, term), REQ)
         ctx.fail(
             "model and implementation disagree (%s) at operation %d (%r): implementation %s, model %s"
             % (what, k, ops[k], json.dumps(infos[k], default=str)[:300], (ans[0] if ans else "?")[:300]),
@@ -764,7 +773,7 @@ def inference_tie(ctx, np, util, config, model_ok):
     body = "Definition rows := [%s].\n" % "; ".join("(%s, %s, %s, %s, %d)" % (cstr(p), cbool(tb), cbool(sf), "(%d)" % code, tgt) for p, tb, sf, code, tgt in rows)
     body += ("Eval vm_compute in (filter (fun r => let '(p, tb, sf, code, tgt) := r in "
              "negb (Z.eqb (infer_code tb sf p) code && Z.eqb (target_code p) tgt)) rows).\n")
-    ans, log = C.coq_eval(ctx, "infer", body, REQ)
+    ans, log = C.coq_eval(ctx, TAG + "_infer", body, REQ)
     if ans is None:
         ctx.fail("inference correspondence does not evaluate", dict(correspondence="infer_force_as", log_tail=log[-1200:]), kind="tie", no_input=True)
         return
@@ -1139,6 +1148,13 @@ def run(ctx):
         "np.save/np.load, np.savez/np.load, tofile/fromfile round-trip arrays exactly; archive member names are the keys",
         "paths are plain file names: no Kaldi-table prefix, extension not claimed by soundfile (else pass force_as)",
     ]
+    shutil.rmtree(WORK, ignore_errors=True)
+    for f in os.listdir(os.path.join(C.BUILD, PID)):
+        if f.startswith(TAG + "_") or f.startswith("." + TAG + "_"):
+            try:
+                os.remove(os.path.join(C.BUILD, PID, f))
+            except OSError:
+                pass
     return C.finish(ctx, "proof")
 
 
